@@ -54,7 +54,10 @@ func (t TermLocations) MergeOverlapping() {
 		} else if lastTl != nil && tl != nil {
 			if lastTl.Overlaps(tl) {
 				// ok merge this with previous
-				lastTl.End = tl.End
+				// (a location nested in the previous one must not shorten it)
+				if tl.End > lastTl.End {
+					lastTl.End = tl.End
+				}
 				t[i] = nil
 			}
 		}
